@@ -432,7 +432,7 @@ RAW_SOURCES = ["regular", "relative-symlink", "absolute-symlink", "chained-symli
 RAW_BYTES = b"\x00\x01raw \xff\xfe bytes\nsecond line\n"
 
 
-def raw_roundtrip(source, save_as):
+def raw_roundtrip(source, save_as, out_link=False):
     """a RawFileProvider for a file reached as `source` describes, persisted by its serializer and loaded back; returns problems"""
     base = tempfile.mkdtemp(prefix="c11raw_")
     try:
@@ -456,13 +456,17 @@ def raw_roundtrip(source, save_as):
             os.rmdir(os.path.join(root, "etc"))
             os.symlink("usr/lib", os.path.join(root, "etc"))
         prov = SF.RawFileProvider(rel, root=root, save_as=save_as)
+        if out_link:
+            # the output directory is reached through a symbolic link in its path (e.g. /var/tmp -> /mnt/scratch/tmp)
+            os.makedirs(os.path.join(base, "real_out"))
+            os.symlink("real_out", os.path.join(base, "out"))
         data = os.path.join(base, "out", "data")
         doc = json.loads(json.dumps(serde.serialize(prov, root=data)))
         try:
             back = serde.deserialize(doc, root=data, ctx=None, ds=None)
             content = back.content
         except Exception as ex:  # noqa
-            return ["a raw file reached through %s cannot be loaded back: %r" % (source, ex)]
+            return ["a raw file reached through %s%s cannot be loaded back: %r" % (source, ", output directory behind a symbolic link" if out_link else "", ex)]
         bad = []
         if content != RAW_BYTES:
             bad.append("raw file (%s): %r persisted, %r loaded" % (source, RAW_BYTES, content))
@@ -477,9 +481,10 @@ def make_raw():
     def fn(en):
         source = RAW_SOURCES[en.choice("source", len(RAW_SOURCES))]
         save_as = SAVE_AS[en.choice("save_as", len(SAVE_AS))]
-        case = lambda mv: {"kind": "raw", "source": source, "save_as": save_as}  # noqa
+        out_link = en.flag("out_link")
+        case = lambda mv: {"kind": "raw", "source": source, "save_as": save_as, "out_link": out_link}  # noqa
         en.note_sample(case)
-        bad = raw_roundtrip(source, save_as)
+        bad = raw_roundtrip(source, save_as, out_link)
         en.must_hold(not bad, "content-roundtrip", case, detail=bad)
     return fn
 
@@ -654,7 +659,7 @@ def obligations(tier):
                    stubs=["in-memory file layer as in O1"], encoded=enc[:2], budget_s=600 if thorough else 150, replay="content", check_sample=True),
         Obligation("O3-raw-files", make_raw(), ["content-roundtrip"],
                    desc="raw (binary) files persisted by the real cp on a real scratch tree: reached directly, through a relative / absolute / chained symlink or a symlinked directory, every save-as form; the loaded bytes equal the source bytes (finite exploration)",
-                   bounds={"sources": RAW_SOURCES, "save_as": SAVE_AS, "content": "fixed bytes incl. NUL and non-UTF-8"}, outside=["cp itself"], encoded=[SF.RawFileProvider.write, SF.serialize_raw_file_provider, SF.deserialize_raw_file_provider],
+                   bounds={"sources": RAW_SOURCES, "save_as": SAVE_AS, "content": "fixed bytes incl. NUL and non-UTF-8", "output directory": ["plain path", "behind a symbolic link"]}, outside=["cp itself"], encoded=[SF.RawFileProvider.write, SF.serialize_raw_file_provider, SF.deserialize_raw_file_provider],
                    budget_s=120, replay="content", check_sample=True),
         Obligation("O2-corruption", make_corrupt(), ["corruption-tolerated"],
                    desc="real Hydration on a scratch directory: four components (one multi-output, one failed), every fault on any subset of the three loadable entries, four listing orders",
@@ -691,7 +696,7 @@ def _native(case):
             shutil.rmtree(root, ignore_errors=True)
         return bad
     if case["kind"] == "raw":
-        return raw_roundtrip(case["source"], case["save_as"])
+        return raw_roundtrip(case["source"], case["save_as"], case.get("out_link", False))
     if case["kind"] == "multi":
         po = case.get("pool_order")
         provs, docs, backs, contents, errors = roundtrip_multi(case["providers"], case["lines"], (lambda items: [items[i] for i in po]) if po is not None else None)
